@@ -563,7 +563,7 @@ func c08Result(p, f, d uint64, maxF uint64, maxR int, ignore bool, errs int) *ru
 	if errs&2 != 0 {
 		res.AddError(errors.New("teardown failed"))
 	}
-	res.GetTotals()
+	engine.TakeTotals(res)
 	return res
 }
 
